@@ -462,16 +462,13 @@ class ModelExport:
                     target_types = model.List(
                         [type.to_model() for type in op.cfg_outputs]
                     )
-                    targets = [
-                        self.link_name(InPort(child, i))
-                        for i in range(child_data._num_inps)
-                    ]
+                    targets = [self.link_name(InPort(child, 0))]
                 case DataflowBlock() as op:
                     if source is None:
                         source_types = model.List(
                             [type.to_model() for type in op.inputs]
                         )
-                        source = self.link_name(OutPort(child, 0))
+                        source = self.link_name(InPort(child, 0))
 
                     child_node = self.export_node(child)
 
